@@ -26,7 +26,7 @@ def mismatch (m s : String) : String := s!"MODEL-SPEC-MISMATCH model={m} spec={s
 
 def searchOps : List String :=
   ["pq", "pqraw", "tmeta", "rle", "ipc", "ipcraw", "ocf", "ocfraw", "csv", "csvraw", "json", "jsonraw",
-   "variant", "variantraw", "ipcz", "ipczraw", "flight", "dict"]
+   "variant", "variantraw", "ipcz", "ipczraw", "flight", "avrodec", "dict"]
 
 /-- Avro `read_varint` + zig-zag; model and ULEB128-u64 specification must agree on every input -/
 def avlqAnswer (h : String) : String :=
@@ -71,6 +71,17 @@ def handle (toks : List String) : String :=
         else if li.size > nelems then "ERR"
         else "SKIP"
     | _, _ => "bad-op"
+  -- unknown struct fields after field 4 of FileMetaData: read_field_begin + skip of scalar types
+  | ["tfield", h] =>
+    match parseHex h with
+    | none => "bad-op"
+    | some bs =>
+      match thriftSkipFields (bs.length + 1) 4 bs with
+      | none => "SKIP"
+      | some (.error _) => "ERR"
+      | some (.ok (ids, _)) =>
+        -- an id that FileMetaData knows (1..9) is parsed, not skipped: outside this model
+        if ids.any (fun i => 1 ≤ i ∧ i ≤ 9) then "SKIP" else "ok"
   -- BitReader::get_vlq_int / get_zigzag_vlq_int
   | ["bvlq", h] =>
     match parseHex h with
